@@ -90,6 +90,7 @@ func (s *Shared) c13Cases(tier string) []SchedCase {
 		bound = &two
 	}
 	secondary := tier != "thorough" && s.W.Config != "default"
+	handOnly := false // quick, list fan-out: the fault-free plan and the hand-picked failures only
 	add := func(op Op, extraPlans []Plan) {
 		if seen[op.Text] {
 			return
@@ -102,12 +103,17 @@ func (s *Shared) c13Cases(tier string) []SchedCase {
 		plans := s.Plans(doc, op, d, false, false)
 		plans = append(plans, extraPlans...)
 		b := bound
-		if secondary {
+		if secondary || handOnly {
 			// the second quick configuration: the fault-free plan and the hand-picked failures, one deviation
 			plans = append([]Plan{{}}, extraPlans...)
 			b = &one
 		}
+		dup := map[string]bool{}
 		for _, p := range plans {
+			if dup[p.Key()] {
+				continue
+			}
+			dup[p.Key()] = true
 			out = append(out, SchedCase{Case: Case{Op: op, Plan: p, Yield: true}, Name: op.Text + " | " + p.Key(), Bound: b})
 		}
 	}
@@ -145,10 +151,24 @@ func (s *Shared) c13Cases(tier string) []SchedCase {
 	} {
 		op := Op{Text: q}
 		bound = &two
+		handOnly = false
 		if tier != "thorough" && (strings.Contains(q, "{ts{") || strings.Contains(q, "kidsReq")) {
 			bound = &one // list fan-out: two groups per element
+			handOnly = strings.Count(q, "@defer") > 1
 		}
-		add(op, []Plan{planOf("t.kid.name", "error"), planOf("t.req", "error"), planOf("t.kid", "null"), planOf("t.kidReq", "null"), planOf("ts[1].req", "error")})
+		add(op, []Plan{planOf("t.kid.name", "error"), planOf("t.req", "error"), planOf("t.kid", "null"), planOf("t.kidReq", "null"), planOf("ts[1].req", "error"), planOf("ts[0].name", "error")})
+	}
+	handOnly = false
+	// `if` is a NULLABLE Boolean: a variable that is omitted or null, and the literal null, are
+	// valid; whichever way the server decides, the merged result is the plain one
+	for _, op := range []Op{
+		{Text: `query($n:Boolean){t{id ... @defer(if:$n){name}}}`},
+		{Text: `query($m:Boolean){t{id ... @defer(if:$m,label:"l"){name req}}}`, Vars: map[string]any{"m": nil}},
+		{Text: `{t{id ... @defer(if:null){name}}}`},
+		{Text: `query($n:Boolean){ts{id ...F @defer(if:$n)}} fragment F on T{name}`},
+	} {
+		bound = &one
+		add(op, []Plan{planOf("t.name", "error"), planOf("t.req", "error")})
 	}
 	return out
 }
